@@ -11,13 +11,13 @@ import (
 //
 //verif:unwind 8
 func verifH_C15_backoff() {
-	// quick: attempt numbers around every regime change (no overflow / int64 wrap of min*2^k / 2^63 float->int overflow);
+	// quick: one attempt number per regime (no overflow / int64 wrap of min*2^k / 2^63 float->int overflow);
 	// thorough: every attempt number 0..70
 	k := 0
 	if verifThorough() {
 		k = verifChoose(0, 70)
 	} else {
-		ks := []int{0, 1, 31, 62, 63, 64}
+		ks := []int{0, 31, 62, 63}
 		k = ks[verifChoose(0, len(ks)-1)]
 	}
 	min := verifAnyInt64()
@@ -32,8 +32,8 @@ func verifH_C15_backoff() {
 	for i := 0; i < reps; i++ {
 		b.numAttempts = uint32(k)
 		d := int64(b.duration())
-		verifAssert(d > 0, "back-off delay is positive")
-		verifAssert(d <= max, "back-off delay never exceeds ReconnectionDelayMax")
+		// one obligation per path instead of two (each FP query costs seconds): branch-free conjunction
+		verifAssert(verifIte(d > 0, 1, 0)+verifIte(d <= max, 1, 0) == 2, "back-off delay is within (0, ReconnectionDelayMax]")
 		verifAssert(b.numAttempts == uint32(k)+1, "each call counts one attempt")
 		if !(jitter > 0 && jitter <= 1) && k == 0 {
 			verifAssert(d == min, "without jitter the first delay is ReconnectionDelay")
